@@ -29,9 +29,20 @@ Theorem C16_unflatten_frame : forall p q v kvs,
 Proof. exact get_unflatten_other. Qed.
 Print Assumptions C16_unflatten_frame.
 
-(* Not yet theorems (decided by the correspondence on every run): that the tree has NO other
-   leaves (flatten (unflatten kv) is exactly kv), the same two statements for FromProperties
-   (which goes through AddValueAt), and the text round trip (magiconair parsing is external). *)
+(* ... and the tree has NO other leaves: whatever non-container value sits at a dotted position of
+   the result is the value of a decoded pair with exactly that key (for every key set, conflicting
+   or not, in any processing order).  With C16_unflatten_pairs: for conflict-free keys the leaves
+   of the tree are exactly the decoded pairs. *)
+Theorem C16_unflatten_exact : forall kv q x,
+  Forall (fun e => is_con (snd e) = false) kv ->
+  get_dotted q (unflatten_ord kv) = Some x -> is_con x = false ->
+  exists k, In (k, x) kv /\ split_dots k = q.
+Proof. exact unflatten_ord_exact. Qed.
+Print Assumptions C16_unflatten_exact.
+
+(* Not theorems (decided by the correspondence on every run): the same two statements for
+   FromProperties (which goes through AddValueAt, so a component like "a[0]" builds a list), and the
+   text round trip (magiconair parsing is external). *)
 
 Example C16_ex :
   let kv := [("a.b"%string, Leaf (SStr "1")); ("a.c.d"%string, Leaf (SStr "2")); ("x"%string, Leaf (SStr "3"))] in
